@@ -165,8 +165,9 @@ Proof.
   set (s2 := set_actors s1 (actors s1 ++ [new_actor t self r inst])).
   assert (H2 : pending s2 = pending s).
   { unfold s2, pending, set_actors; cbn [actors]. rewrite pend_list_app. unfold pend_list at 2. cbn. unfold pending in H1. lia. }
-  destruct (lookup t (registry s2)).
+  change (registry s2) with (registry s1) in *. destruct (lookup t (registry s1)).
   - intros H; inversion H; subst. apply bal_quiet; auto.
+    unfold pending, set_actors; cbn [actors]. rewrite pend_list_app. unfold pend_list at 2. cbn. unfold pending in H1. lia.
   - set (s5 := deliver_sys _ t self SLaunch).
     assert (H5 : pending s5 = pending s) by (unfold s5; rewrite deliver_sys_pending; rewrite pending_upd_actor by keep; exact H2).
     unfold stop_if_parent_gone. destruct (get s5 u) as [pa|]; [|intros H; inversion H; subst; apply bal_quiet; auto].
